@@ -164,11 +164,13 @@ CLAIMED = {
         "so with the cursor in column 0 at the interrupt the execute calls after CONT return exactly the events of the uninterrupted machine, for one "
         "call and for any sequence of calls during which the reference run stays inside the program and keeps running; the same for the STOP and "
         "END statements inside the program: after the report, the prompt and CONT the call returns what the machine would have returned had the "
-        "statement been skipped (Props/C13.v, Proofs/Slicing.v, ContTrip.v, DeadFields.v, ContRun.v).",
+        "statement been skipped; an interrupt taken while the program waits at an INPUT prompt: CONT gives control back at once with the wait restored, "
+        "the next call asks the same question, and the reply and the call that stores its fields (or unwinds to the prompt again) behave as on the "
+        "uninterrupted machine (Props/C13.v, Proofs/Slicing.v, ContTrip.v, DeadFields.v, ContRun.v).",
         "the same sessions under seven quanta, interrupted after every k-th execute(1) call with optional inspection and CONT, with STOP inserted at "
         "statement boundaries, and programs waiting for keys (INKEY$) interrupted while each wait is pending; outputs must equal the uninterrupted run modulo the ?BREAK block and its forced line break.",
         "PARTIAL: the cursor beyond column 0 at the interruption (one line break is forced by design, after which TAB, POS and print zones differ), "
-        "runs that trace, and calls that cross an INPUT / INKEY$ wait are decided by the monitor, not proved.",
+        "runs that trace, and interrupts during a key wait or a listing end to end are decided by the monitor, not proved.",
         "Coq slicing theorem + schedule-enumerating differential and relational check"),
     "C14": entry(
         "the change map is built completely before any line is touched (a failing RENUM leaves the listing as it was); lines below old-start are not in "
